@@ -1351,11 +1351,14 @@ bool BW_MidiSequencer::processEvents(bool isSeek)
     {
         while(caughLoopStackBreaks > 0)
         {
-            LoopStackEntry &s = m_loop.getCurStack();
-            s.loops = 0;
-            s.infinity = false;
-            // Quit the loop
-            m_loop.stackDown();
+            if(m_loop.stackLevel >= 0) // A break met outside of any loop (after a seek into the loop body) has nothing to quit
+            {
+                LoopStackEntry &s = m_loop.getCurStack();
+                s.loops = 0;
+                s.infinity = false;
+                // Quit the loop
+                m_loop.stackDown();
+            }
             caughLoopStackBreaks--;
         }
     }
